@@ -101,6 +101,9 @@ pub enum M {
     TailGarbage(usize),
     /// footer (file index) of the uncompressed stream spliced in place of the compression sizes table and vice versa
     FooterSplice,
+    /// compressed stream: the first block starts with a "large window" brotli header declaring a window of
+    /// 2^wbits bytes followed by a non-final uncompressed meta-block of 16 bytes (5 bytes overwritten)
+    BrotliWindow(u8),
     /// raw random bytes (supplementary, seeded): kind 0 = pure random, 1 = magic+version then random,
     /// 2 = the base's valid header then random body
     Random(u64, u8),
@@ -371,6 +374,15 @@ pub fn apply(b: &Base, ms: &[M]) -> Option<Vec<u8>> {
                 put(&mut l1, *pos, *width, v);
                 touched1 = true;
             }
+            M::BrotliWindow(wbits) => {
+                if !b.layers.compressed() || l1.len() < 32 {
+                    return None;
+                }
+                // 0x11: WBITS escape for large-window brotli; 6 bits of window size; ISLAST=0, MNIBBLES=0 (4 nibbles),
+                // MLEN-1 = 15, ISUNCOMPRESSED=1, padding
+                l1[..5].copy_from_slice(&[0x11, *wbits & 0x3F, 0x1E, 0x00, 0x02]);
+                touched1 = true;
+            }
             M::FooterSplice => {
                 if !b.layers.compressed() || l1.len() < 4 || l2.len() < 4 {
                     return None;
@@ -457,6 +469,9 @@ pub fn mutation_sets(b: &Base, bi: usize, thorough: bool) -> Vec<Vec<M>> {
             }
         }
         ops.push(M::FooterSplice);
+        for w in [10u8, 24, 25, 28, 30] {
+            ops.push(M::BrotliWindow(w));
+        }
     }
     let nb = map.blocks.len();
     for i in 0..nb {
@@ -479,23 +494,23 @@ pub fn mutation_sets(b: &Base, bi: usize, thorough: bool) -> Vec<Vec<M>> {
     }
     // raw random byte strings (supplementary; VERIF_SEED)
     let base_seed = infra::ctx().seed.wrapping_mul(1_000_003).wrapping_add(bi as u64 * 7919);
-    for k in 0..(if thorough { 3000u64 } else { 300 }) {
+    for k in 0..(if thorough { 1500u64 } else { 300 }) {
         out.push(vec![M::Random(base_seed.wrapping_add(k * 31), (k % 3) as u8)]);
     }
     // k = 2: all pairs over the boundary operators (field ops with the 4 most hostile values) on
-    // two bases (quick) / all bases (thorough)
+    // three bases (quick) / every second base (thorough)
     let hostile: Vec<M> = ops
         .iter()
         .filter(|m| match m {
             M::Field { val, .. } => [0u64, 0xFFFF_FFFF, 0x8000_0000_0000_0000, u64::MAX].contains(val),
             M::FieldRel { delta, .. } => *delta == 1,
-            M::FooterSplice | M::OffsetsRepeat(1000) | M::TailGarbage(4) => true,
+            M::FooterSplice | M::OffsetsRepeat(1000) | M::TailGarbage(4) | M::BrotliWindow(30) => true,
             M::BlockDel(_) => true,
             _ => false,
         })
         .cloned()
         .collect();
-    if thorough || bi % 7 == 3 {
+    if (thorough && bi % 2 == 1) || bi % 7 == 3 {
         for i in 0..hostile.len() {
             for j in i + 1..hostile.len() {
                 out.push(vec![hostile[i].clone(), hostile[j].clone()]);
@@ -504,7 +519,7 @@ pub fn mutation_sets(b: &Base, bi: usize, thorough: bool) -> Vec<Vec<M>> {
     }
     // k = 3: structured op + truncation + bit flip near the end (thorough)
     if thorough {
-        let few: Vec<&M> = hostile.iter().step_by(hostile.len() / 30 + 1).collect();
+        let few: Vec<&M> = hostile.iter().step_by(hostile.len() / 14 + 1).collect();
         for a in &few {
             for b2 in &few {
                 for c in &few {
@@ -914,7 +929,7 @@ pub fn run(started: Instant) -> i32 {
         rep,
         Meta {
             level: "fault_enumeration",
-            rule: "20 base archives (5 programs x 4 layer combos, real writer); mutation sets: k=1 exhaustive on archive bytes (every truncation; every byte x {8 bit flips, 00, FF, +1, -1}); k=1 structured on the decoded streams, re-encoded with valid compression and valid tags (every integer field of block headers, file index, sizes table and both length words set to 12 boundary values (including 128 MiB, 256 MiB and 512 MiB - 1, just under the deserialisation limit) and to len-1/len/len+1; every block delete/duplicate-at/swap; offsets list = N copies of a foreign offset, N in {10,1000,300000}; trailing garbage; footer splice between layers); 300 (thorough 3000) seeded random byte strings per base (pure, after a valid magic, after a valid header - supplementary); k=2 all pairs over the hostile structured operators (3 bases quick / all thorough); k=3 triples (thorough). On each input: open, list, read every file with 7-byte reads, get_hash, linear_extract, repair in both modes, and - when a call returned an error - every sequence of up to 2 (thorough 3) further calls on the same reader, then drop. Each input runs in a worker process (crash attribution), under catch_unwind, a 60 s watchdog and a counting allocator (ceiling 96 MiB + 64 x input). non-trivial = distinct mutated inputs".to_string(),
+            rule: "20 base archives (5 programs x 4 layer combos, real writer); mutation sets: k=1 exhaustive on archive bytes (every truncation; every byte x {8 bit flips, 00, FF, +1, -1}); k=1 structured on the decoded streams, re-encoded with valid compression and valid tags (every integer field of block headers, file index, sizes table and both length words set to 12 boundary values (including 128 MiB, 256 MiB and 512 MiB - 1, just under the deserialisation limit) and to len-1/len/len+1; every block delete/duplicate-at/swap; offsets list = N copies of a foreign offset, N in {10,1000,300000}; trailing garbage; footer splice between layers; first compressed block starting with a large-window brotli header declaring a window of 2^{10,24,25,28,30} bytes); 300 (thorough 1500) seeded random byte strings per base (pure, after a valid magic, after a valid header - supplementary); k=2 all pairs over the hostile structured operators (3 bases quick / 11 thorough); k=3 triples (thorough). On each input: open, list, read every file with 7-byte reads, get_hash, linear_extract, repair in both modes, and - when a call returned an error - every sequence of up to 2 (thorough 3) further calls on the same reader, then drop. Each input runs in a worker process (crash attribution), under catch_unwind, a 60 s watchdog and a counting allocator (ceiling 96 MiB + 64 x input). non-trivial = distinct mutated inputs".to_string(),
             exhaustive: true,
             bounds: json!({"bases": bases.len(), "cases": total}),
             assumptions: vec!["scaled constants; overflow checks on (profile of the suite)".to_string(), "inner streams are re-encrypted with the archive's own key by an independent AES-GCM implementation (equivalent to an attacker producing an archive for the victim's public key)".to_string()],
